@@ -1,7 +1,7 @@
 #!/bin/sh
 # For every seeded change (or those matching $1) run ALL checks (quick) against it and print one line
 # per (change, check). Used to audit cross-property alarms: a check should alarm only when ITS property
-# is violated by the change.
+# is violated by the change. Optional: $1 = glob over seeded/ names, $2 = space-separated check ids.
 set -u
 HERE="$(cd "$(dirname "$0")/.." && pwd)"
 export GOFLAGS=-mod=mod GOPROXY=off GOSUMDB=off GOTOOLCHAIN=local
@@ -10,7 +10,7 @@ for d in "$HERE"/seeded/${1:-*}/; do
 	W="$(mktemp -d /tmp/cross-XXXXXX)"; rmdir "$W"
 	git -C /repo worktree add -q --detach "$W" HEAD || continue
 	if git -C "$W" apply "$d/patch.diff" 2>/dev/null; then
-		for id in C01 C02 C03 C04 C05 C06 C07 C08 C09 C10 C11 C12 C13 C14 C15 C16 C17; do
+		for id in ${2:-C01 C02 C03 C04 C05 C06 C07 C08 C09 C10 C11 C12 C13 C14 C15 C16 C17}; do
 			out="$(VERIF_REPO="$W" timeout 1500 "$HERE/run.sh" check "$id" quick 2>&1)"; rc=$?
 			first=$(printf '%s\n' "$out" | grep -A1 '^VIOLATION' | sed -n 2p | cut -c1-200)
 			[ $rc -eq 2 ] && first=$(printf '%s\n' "$out" | grep INCONCLUSIVE | head -1 | cut -c1-200)
